@@ -903,7 +903,7 @@ fn run(ctx: &mut Ctx) {
     if let Ok(dir) = std::env::var("CVERIF_WITNESS") {
         write_witnesses(&dir);
     }
-    let n = ctx.n(6000, 400_000);
+    let n = ctx.n(1500, 400_000);
     ctx.max_shrink_iters = 150;
     ctx.run("faults", n, case_strategy, oracle);
     ctx.max_shrink_iters = 4000;
